@@ -39,7 +39,7 @@ def strip_comments(src):
 
 
 # which machine-translated kernels a property's theorem file depends on (Proofs/Gen*.lean prove them equal to the hand model)
-GEN_KERNELS = {"C07": ["Utils", "Poly1305", "Blake2b", "SipHash", "Core"], "C09": ["Utils", "Argon2"], "C12": ["Utils", "Blake2b"], "C18": ["Utils", "Blake2b"],
+GEN_KERNELS = {"C07": ["Utils", "Poly1305", "Blake2b", "SipHash", "Core"], "C09": ["Utils", "Argon2"], "C12": ["Utils", "Blake2b", "Curve"], "C18": ["Utils", "Blake2b"], "C05": ["Curve"], "C13": ["Curve"],
                "C14": ["Protected"], "C15": ["Protected"]}
 
 
@@ -148,11 +148,19 @@ def build_runner(cfg="stable"):
     c = RUNNER_CFG[cfg]
     tdir = os.path.join(HARNESS, "target-" + cfg)
     cmd = ["cargo"] + ([c["toolchain"]] if c["toolchain"] else []) + ["build", "--offline", "--target-dir", tdir]
+    env = None
+    cov = os.environ.get("VERIF_COVERAGE")
+    if cov:
+        # audit mode (tools/coverage.sh): an instrumented runner in a scratch target dir, profiles written next to it
+        tdir = os.path.join(cov, "target-" + cfg)
+        cmd = ["cargo", "+nightly", "build", "--offline", "--target-dir", tdir]
+        env = dict(ENV, RUSTFLAGS="-C instrument-coverage")
+        ENV["LLVM_PROFILE_FILE"] = os.path.join(cov, "prof", cfg + "-%p-%m.profraw")
     if c["features"]:
         cmd += ["--features", ",".join(c["features"])]
     with Lock("cargo-" + cfg):
         # Cargo.lock is a copy of /repo's; refresh if /repo's changed
-        rc, out = sh(cmd, cwd=HARNESS, timeout=3000)
+        rc, out = sh(cmd, cwd=HARNESS, timeout=3000, env=env)
     if rc != 0:
         raise BuildError("runner build (%s) failed:\n%s" % (cfg, out[-3000:]))
     return os.path.join(tdir, "debug", "runner")
@@ -315,6 +323,9 @@ def write_evidence(res, lean, level="proof", assumptions=None, trusted=None, rul
         "wall_s": round(time.time() - res.t0, 2),
         "violations": len(res.violations) + (1 if failed else 0) + (1 if res.corr_breaks and not res.violations else 0),
     }
+    if lean.get("generated") and GEN_KERNELS.get(res.prop):
+        ev["coverage"]["translated_kernels"] = {k: lean["generated"].get(k, "?") for k in GEN_KERNELS[res.prop]}
+        ev["coverage"]["translator_cmd"] = "python3 /verif/tools/rs2lean.py --all /repo /verif/lean/DryocVerif/Gen  (run inside every check before lake build)"
     ev["coverage"].update(res.extra)
     os.makedirs(os.path.join(VERIF, "evidence"), exist_ok=True)
     json.dump(ev, open(os.path.join(VERIF, "evidence", res.prop + ".json"), "w"), indent=1)
